@@ -6,10 +6,11 @@
     of base's qualities mapped pointwise through f; [qmap_ok o f]: f is the identity, or (only if
     --zero-cap is given) raises values below the quality base to the base; [out_rel]: base is the
     input read, or its reverse complement exactly when --revcomp chose that orientation.
-    Paired-end statements: Properties/C05.v. *)
+    Pairs: C03_paired_slice below (Proofs/PairedSlice.v); further paired-end statements: Properties/C05.v. *)
 From Coq Require Import ZArith List Bool.
 From CV Require Import Model.Base Model.Align Model.Adapters Model.Qualtrim Model.Pipeline Model.PipelineRun
-  Proofs.StageProofs Proofs.ActionProofs Proofs.ModifyProofs Proofs.OrderProofs Proofs.AdapterProofs.
+  Proofs.StageProofs Proofs.ActionProofs Proofs.ModifyProofs Proofs.OrderProofs Proofs.AdapterProofs Proofs.PairedSlice.
+From CV Require Import Model.Paired.
 Import ListNotations.
 Open Scope Z_scope.
 
@@ -60,6 +61,23 @@ Print Assumptions C03_actions.
 Theorem C03_pyslice_in_step : forall lo hi r, wf_read r -> wf_read (rslice lo hi r) /\ sub_read (fun q => q) (rslice lo hi r) r.
 Proof. exact (fun lo hi r H => conj (wf_rslice lo hi r H) (rslice_sub_read lo hi r H)). Qed.
 Print Assumptions C03_pyslice_in_step.
+
+(** pairs, actions trim and none, every option set and every order of the option kinds: both mates that leave
+    the paired modifier chain are well-formed (sequence and qualities of equal length) and each is a contiguous
+    slice, qualities in step (zero-capped at most), of its own input mate -- or, only with --revcomp, when the
+    paired reverse-complement step swapped the pair, of the other input mate.  The adapter stage is whichever of
+    the three paired variants applies: --pair-adapters, paired --revcomp, or one cutter per mate. *)
+Theorem C03_paired_slice : forall order p r1 r2,
+  Forall wf_padapter (o_adapters (po_base p)) -> Forall wf_padapter (po_adapters2 p) ->
+  (o_action (po_base p) = ATrim \/ o_action (po_base p) = ANone) -> wf_read r1 -> wf_read r2 ->
+  let s := pmodify order p r1 r2 in
+  let s1 := fst (fst s) in
+  let s2 := fst (snd s) in
+  wf_read s1 /\ wf_read s2 /\ exists f1 f2, qmap_ok (po_base p) f1 /\ qmap_ok (po_base p) f2 /\
+    ((sub_read f1 s1 r1 /\ sub_read f2 s2 r2) \/
+     (o_revcomp (po_base p) = true /\ sub_read f1 s1 r2 /\ sub_read f2 s2 r1)).
+Proof. exact pmodify_slices. Qed.
+Print Assumptions C03_paired_slice.
 
 (** non-vacuity: -u 2 -a ACGT on a read with qualities *)
 Definition ex_o : options :=
